@@ -117,6 +117,8 @@ type c14Outcome struct {
 	CrossReads int
 	RouteOps   int
 	Stalls     int
+	WBMissing  int
+	Ungated    int
 	Panics     int
 }
 
@@ -126,6 +128,9 @@ func (sc *c14Scenario) finish(w *c14World, s *vk.Sched, ok bool) *c14Outcome {
 	defer w.close()
 	w.register("main")
 	out.Stalls = s.Stalls()
+	close(w.stopped)
+	out.WBMissing = int(w.wbMissing.Load())
+	out.Ungated = int(w.ungated.Load())
 	if !ok {
 		out.Incomplete = true
 		return out
@@ -208,7 +213,7 @@ func (ev *c14Eval) report(sig string, what string, extra map[string]any) {
 	ev.out.Details[sig] = d
 }
 
-func c14IsBg(thread string) bool { return strings.HasPrefix(thread, "bg") }
+func c14IsBg(thread string) bool { return strings.HasPrefix(thread, "wb") }
 
 func (ev *c14Eval) cat() string { return c14CatName[ev.sc.Cat] }
 
@@ -681,42 +686,52 @@ func (ev *c14Eval) classify(node int, upto int, mode string) (sig, why string) {
 			}
 		}
 	}
-	// 2. who wrote the copy that serves this node's reads?
+	// 2. late write-backs on the cache tier serving this node: a background cache write
+	// that landed after a completed-later mutation of the same tier (the value it carries
+	// was fetched from the persistent tier before that mutation)
 	ct := sc.cacheTier(node)
-	last := -1
+	last := -1                   // last mutation of ct
+	lastOn := map[string]int{}   // per cache tier
+	lateKind := map[int]string{} // seq of a late write-back -> kind of the facade mutation it overwrote
+	anyLate := -1
 	for _, t := range ev.log {
 		if t.Seq >= upto {
 			break
 		}
-		if t.Tier == ct && t.Key == sc.Key && !t.Err && (t.Op == "Set" || t.Op == "Delete") {
+		if t.Tier == "pers" || t.Key != sc.Key || t.Err || (t.Op != "Set" && t.Op != "Delete") {
+			continue
+		}
+		if prev, ok := lastOn[t.Tier]; ok && c14IsBg(t.Thread) && t.Phase == 1 && !c14IsBg(ev.log[prev].Thread) {
+			if h := ev.hop(ev.log[prev].HOp); h != nil && h.Phase == 1 && h.mutator() {
+				lateKind[t.Seq] = h.Kind
+				anyLate = t.Seq
+			}
+		}
+		lastOn[t.Tier] = t.Seq
+		if t.Tier == ct {
 			last = t.Seq
 		}
 	}
-	if last >= 0 && ev.log[last].Op == "Set" && c14IsBg(ev.log[last].Thread) {
-		// the mutation it overwrote
-		kind := ""
-		for i := last - 1; i >= 0; i-- {
-			t := ev.log[i]
-			if t.Tier == ct && t.Key == sc.Key && !t.Err && !c14IsBg(t.Thread) && (t.Op == "Set" || t.Op == "Delete") {
-				if h := ev.hop(t.HOp); h != nil && h.Phase == 1 {
-					kind = h.Kind
-				}
-				break
-			}
-		}
-		switch kind {
-		case "del":
+	staleSig := func(seq int, via string) (string, string) {
+		if lateKind[seq] == "del" {
 			return fmt.Sprintf("C14:stale|category=%s|pattern=get-miss>delete>writeback", ev.cat()),
-				"a read missed the cache and fetched the value from the persistent tier; a delete then completed on both tiers; the asynchronous write-back stored the fetched value in the cache afterwards"
-		case "set", "append", "remove":
-			return fmt.Sprintf("C14:stale|category=%s|pattern=get-miss>set>writeback", ev.cat()),
-				"a read missed the cache and fetched the old value from the persistent tier; an overwrite then completed on both tiers; the asynchronous write-back replaced the new cache entry by the old value"
+				"a read missed the cache and fetched the value from the persistent tier; a delete then completed on both tiers; the asynchronous write-back stored the fetched value in the cache afterwards" + via
 		}
+		return fmt.Sprintf("C14:stale|category=%s|pattern=get-miss>set>writeback", ev.cat()),
+			"a read missed the cache and fetched the old value from the persistent tier; an overwrite then completed on both tiers; the asynchronous write-back replaced the new cache entry by the old value" + via
+	}
+	if _, ok := lateKind[last]; ok {
+		return staleSig(last, "")
 	}
 	// 3. list updates overlapping between read and write
 	if mode == "list" && ev.out.Overlap {
 		return fmt.Sprintf("C14:listlost|category=%s|pattern=concurrent-get-modify-set", ev.cat()),
 			"two list updates both read the list before either wrote it back; the later write-back drops the other update"
+	}
+	// 4. an earlier late write-back whose stale copy was read (and, for lists, used as the
+	// basis of a later get-modify-set, which spreads the loss to every tier)
+	if anyLate >= 0 {
+		return staleSig(anyLate, " (the stale cache copy was then read by a later operation)")
 	}
 	return "", ""
 }
